@@ -38,6 +38,7 @@ SHAPES = {
     },
     "Pos": {"first": dict(kind="required", positional=True), "second": dict(kind="option", positional=True), "rest": dict(kind="vec", positional=True)},
     "ReqSub": {"verbose": dict(kind="bool"), "cmd": dict(kind="subcommand-req", ty="Cmd")},
+    "OptSub": {"verbose": dict(kind="bool"), "cmd": dict(kind="subcommand-opt", ty="Plain")},
     "Flat": {"inner": dict(kind="option"), "inner_flag": dict(kind="bool")},
     "RemoveArgs": {"force": dict(kind="bool"), "level": dict(kind="option")},
 }
@@ -218,8 +219,10 @@ def run(ctx):
                 l = op_local(ctor[f])
                 somes = [(bb, rhs) for (bb, idx, lhs, rhs) in fam.def_sites(l) if not isinstance(rhs, Call) and rhs["k"] == "agg" and rhs.get("variant") == "Some"]
                 nones = [(bb, rhs) for (bb, idx, lhs, rhs) in fam.def_sites(l) if not isinstance(rhs, Call) and rhs["k"] == "agg" and rhs.get("variant") == "None"]
-                okx = len(somes) == 1 and len(nones) == 1 and any(p == "T" and re.search(r"has_subcommand|subcommand_name", g) for p, g in bool_facts(fam, somes[0][0]))
-                why = "Some(subcommand) only if a known subcommand is present"
+                # Some(..) only when the matches hold a subcommand *of this enum*: subcommand_name().map(<T>::has_subcommand)
+                gs = [g for p, g in bool_facts(fam, somes[0][0]) if p == "T"] if somes else []
+                okx = len(somes) == 1 and len(nones) == 1 and any(re.search(r"subcommand_name\(", g) and re.search(r"has_subcommand", g) for g in gs)
+                why = "Some(subcommand) only if subcommand_name().map(<%s>::has_subcommand) holds" % spec["ty"]
             else:
                 okx, why = False, "?"
             res.check(okx, "R15.1", "extract|%s|%s" % (key, kind), fam.where(), "%s: %s" % (why, e[:70]), "field %s (%s) is extracted as `%s`, expected %s" % (key, kind, e[:140], why))
@@ -243,6 +246,11 @@ def run(ctx):
     rets = [op_int(st["rv"]["op"]) for i, j, st in hs.stmts() if st["k"] == "assign" and st["place"] == 0 and st["rv"]["k"] == "use"]
     res.check(rets == [1] and not hs.calls(), "R15.1", "subcommand-names", hs.where(), "has_subcommand = true (the enum has an external_subcommand variant)",
               "has_subcommand of an enum with an external_subcommand variant is not constantly true: %s" % rets)
+    hp = cx.body("<%sPlain as %sSubcommand>::has_subcommand" % (C, D))
+    pn = sorted(set(x for x in (const_of(c.body, a) for c in hp.calls() for a in c.args) if x))
+    if not pn:
+        pn = sorted(set(re.findall(r"'([a-z]+)'", " ".join(expr(hp, a) for c in hp.calls() for a in c.args))))
+    res.check(pn == ["one", "two"], "R15.1", "subcommand-names|Plain", hp.where(), "has_subcommand(Plain) knows %s" % pn, "has_subcommand of Plain knows %s, expected one/two" % pn)
     asb = cx.body("<%sCmd as %sSubcommand>::augment_subcommands" % (C, D))
     subs = sorted(set(x for x in (const_of(asb, c.args[0]) for c in asb.calls_to(r"Command::new$")) if x))
     res.check(subs == ["add", "remove", "unit"] and bool(asb.calls_to(r"Command::external_subcommand_value_parser$")), "R15.1", "subcommand-augment", asb.where(), "subcommands %s + external" % subs, "augment_subcommands defines %s" % subs)
